@@ -9,6 +9,8 @@ from contracts.common import *  # noqa
 from contracts import common, insn, c01
 from contracts.insn import *  # noqa
 from pyvc import driver
+from contracts import deferred_c
+from contracts.deferred_c import *  # noqa
 
 ID = "C04"
 EXPLANATION = ("target, address and offset are symbolic over Z (no bound: every distance, every address incl. wrap-around modulo 2^16); "
@@ -36,7 +38,141 @@ def units(tier):
     for m in REPRESENTATIVES:
         for lazy in (False, True):
             us.append(("insn[%s,%s]" % (m, lazy), "unit_compile_insn", dict(mnemonic=m, lazy=lazy)))
+    us.append(("rac", "unit_rac", {}))
+    # the displacement 'target - rel_address' of a lazy target is LinearPolynomial arithmetic, awaited when the word is written: the polynomial's
+    # value is preserved by every operation and by the re-simplification in _wait (contracts/deferred_c.py, shared with C03)
+    for name, fn, kw in deferred_c.all_units():
+        if name.startswith("poly"):
+            us.append((name, fn, kw))
     return us
+
+
+# ---- run-time check: real programs, the displacement decoded the way a PDP-11 does and compared with the address the source names ----------
+# item forms: ("L", name) label / ("G", name) global label 'name::' / ("I", file) .include / (text, size, [(kind, word offset, target), ...])
+# kinds: br (8-bit signed field), sob (6-bit field), rel (extension word at the given byte offset of the instruction)
+def _t(*its):
+    return list(its)
+
+
+NOP = ("nop", 2, [])
+INC_BODY = [("br T", 2, [("br", 0, "T")]), ("jmp T", 4, [("rel", 2, "T")]), ("mov #1, T", 6, [("rel", 4, "T")]), ("mov @T, r0", 4, [("rel", 2, "T")]),
+            ("mov T, T", 6, [("rel", 2, "T"), ("rel", 4, "T")]), ("cmp 10(r1), T", 6, [("rel", 4, "T")]), ("sob r1, T", 2, [("sob", 0, "T")]), ("rts pc", 2, [])]
+FWD_BODY = [("br F", 2, [("br", 0, "F")]), ("jmp F", 4, [("rel", 2, "F")]), ("mov #1, @F", 6, [("rel", 4, "F")]), ("bne F", 2, [("br", 0, "F")])]
+RAC_PROGS = [
+    # an included file, placed at a non-zero offset from the link base, refers to a global label of the including file
+    dict(main="m.mac", files={"m.mac": [NOP, NOP, ("G", "T"), NOP, ("I", "inc.mac"), NOP], "inc.mac": INC_BODY}),
+    dict(main="m.mac", link=0o20000, files={"m.mac": [NOP] * 5 + [("G", "T"), NOP, ("I", "inc.mac"), NOP], "inc.mac": INC_BODY}),
+    # forward: the global label lies behind the include
+    dict(main="m.mac", files={"m.mac": [NOP, NOP, NOP, ("I", "inc.mac"), NOP, ("G", "F"), NOP], "inc.mac": FWD_BODY}),
+    # the including file refers to global labels of the included file
+    dict(main="m.mac", files={"m.mac": [NOP] + FWD_BODY + [("I", "inc.mac")], "inc.mac": [NOP, NOP, ("G", "F"), NOP]}),
+    # nested includes, both directions
+    dict(main="m.mac", files={"m.mac": [NOP, ("G", "T"), NOP, NOP, ("I", "a.mac"), ("G", "F"), NOP], "a.mac": [NOP] + FWD_BODY + [("I", "b.mac")], "b.mac": [NOP, NOP, NOP] + INC_BODY + FWD_BODY}),
+    # one file: labels, label+-k, '.', local labels, decimal offsets; aliases assigned before their labels; coefficients other than 1
+    dict(main="m.mac", files={"m.mac": [("L", "T"), NOP, ("L", "1"), NOP, ("br T", 2, [("br", 0, "T")]), ("br T+2", 2, [("br", 0, "T+2")]), ("jmp T+10.", 4, [("rel", 2, "T+10")]),
+                                        ("br .+4", 2, [("br", 0, ".+4")]), NOP, ("jmp .-2", 4, [("rel", 2, ".-2")]), ("br 1", 2, [("br", 0, "1")]), ("sob r2, 1", 2, [("sob", 0, "1")]),
+                                        ("mov T-2, @F+4", 6, [("rel", 2, "T-2"), ("rel", 4, "F+4")]), ("L", "F"), NOP]}),
+    dict(main="m.mac", files={"m.mac": [("k = tbl + 2", 0, []), NOP, ("jmp end-k+tbl", 4, [("rel", 2, "end-2")]), ("br end-k+tbl", 2, [("br", 0, "end-2")]), NOP, ("L", "tbl"), NOP, NOP, ("L", "end"), NOP]}),
+    dict(main="m.mac", files={"m.mac": [("k = end", 0, []), ("j = tbl", 0, []), NOP, ("jmp 2*k-j-j+tbl-end+tbl", 4, [("rel", 2, "end")]), ("mov @3*k-2*end-j+tbl, r0", 4, [("rel", 2, "end")]), ("L", "tbl"), NOP, NOP, ("L", "end"), NOP]}),
+    # wrap-around: absolute targets far from the code, high link address
+    dict(main="m.mac", link=0o177700, files={"m.mac": [NOP, ("mov 10, r0", 4, [("rel", 2, "=8")]), ("jmp 177776", 4, [("rel", 2, "=65534")]), ("mov #1, 100", 6, [("rel", 4, "=64")])]}),
+    dict(main="m.mac", link=0o10, files={"m.mac": [NOP, ("mov 177770, r0", 4, [("rel", 2, "=65528")]), ("clr @0", 4, [("rel", 2, "=0")])]}),
+]
+
+
+def _rac_layout(prog):
+    base = prog.get("link", 0o1000)
+    labels, checks, texts = {}, [], {}
+    addr = [base]
+
+    def walk(fname):
+        out = []
+        for it in prog["files"][fname]:
+            if it[0] == "L":
+                labels[it[1]] = addr[0]
+                out.append("%s:" % it[1])
+            elif it[0] == "G":
+                labels[it[1]] = addr[0]
+                out.append("%s::" % it[1])
+            elif it[0] == "I":
+                out.append('.include "%s"' % it[1])
+                walk(it[1])
+            else:
+                text, size, cs = it
+                for kind, off, target in cs:
+                    checks.append((fname, text, kind, addr[0], off, target))
+                out.append("        " + text)
+                addr[0] += size
+        texts[fname] = ("" if fname != prog["main"] or "link" not in prog else ".link %o\n" % base) + "\n".join(out) + "\n"
+    walk(prog["main"])
+    return base, labels, checks, texts
+
+
+def _rac_target(expr, labels, here):
+    if expr.startswith("="):
+        return int(expr[1:])
+    import re
+    m = re.fullmatch(r"([A-Za-z0-9.]+)([+-]\d+)?", expr)
+    b = here if m.group(1) == "." else labels[m.group(1)]
+    return (b + int(m.group(2) or 0)) % 65536
+
+
+def unit_rac(eng=None, tree=None):
+    import json
+    tree = tree or driver.tree_root()
+    jobs, metas = [], []
+    for prog in RAC_PROGS:
+        base, labels, checks, texts = _rac_layout(prog)
+        code = """
+import os, tempfile, shutil
+from pdpy11 import reports
+from pdpy11.parser import parse
+from pdpy11.compiler import Compiler
+d = tempfile.mkdtemp(prefix="pyvc-c04-")
+try:
+    texts = %r
+    for n, t in texts.items():
+        open(os.path.join(d, n), "w").write(t)
+    diags = []
+    try:
+        with reports.handle_reports(lambda p, i, *l: diags.append(i)):
+            b, c = Compiler().compile_and_link_files([parse(os.path.join(d, %r), texts[%r])])
+        result = ["ok", b, c.hex(), diags]
+    except reports.UnrecoverableError:
+        result = ["fail", diags]
+finally:
+    shutil.rmtree(d, ignore_errors=True)
+""" % (texts, prog["main"], prog["main"])
+        jobs.append(dict(kind="py", code=code))
+        metas.append((base, labels, checks, texts))
+    res = driver.native(jobs, tree)
+    bad, n = [], 0
+    for (base, labels, checks, texts), r in zip(metas, res):
+        r = r.get("result") or [r.get("status"), r.get("exc"), r.get("msg")]
+        if r[0] != "ok" or r[3]:
+            bad.append(dict(sources=texts, expected="assembles without diagnostics (every target is in reach)", observed=r[:1] + r[3:] if r[0] == "ok" else r))
+            continue
+        if r[1] != base:
+            bad.append(dict(sources=texts, expected="base %o" % base, observed=r[1]))
+            continue
+        img = bytes.fromhex(r[2])
+        for fname, text, kind, at, off, target in checks:
+            n += 1
+            want = _rac_target(target, labels, at)
+            w = img[at - base + off] | (img[at - base + off + 1] << 8)
+            if kind == "br":
+                d = w & 0xFF
+                ea = (at + 2 + 2 * (d - 256 if d & 0x80 else d)) % 65536
+            elif kind == "sob":
+                ea = (at + 2 - 2 * (w & 0o77)) % 65536
+            else:
+                ea = (at + off + 2 + w) % 65536
+            if ea != want:
+                bad.append(dict(sources=texts, statement="%s (in %s at %o)" % (text, fname, at), expected="effective address %o" % want, observed="%o" % ea))
+    ob = dict(label="effective-address-decoded-from-the-image==address-named-in-the-source(includes at an offset, nested includes, aliases, wrap-around)", kind="rac",
+              status="proved" if not bad else "failed", secs=0.0, path=[], witness=None, detail=json.dumps(bad[:3])[:1500], events=[], smt2=None, backend="cpython-native", unit="pcrel-rac",
+              func="Compiler (run-time check)", cases=n, cfg=dict(kind="rac"))
+    return dict(unit="pcrel-rac", func="Compiler (run-time check)", paths=n, obligations=[ob], wall=0.0, bad=bad)
 
 
 def canary(eng):
@@ -53,6 +189,13 @@ def canary(eng):
 def replay(o, tree):
     cfg = o.get("cfg") or {}
     w = o.get("witness") or {}
+    if str(cfg.get("kind", "")).startswith("poly") or cfg.get("kind") == "rac":
+        # program level first: the include / alias programs go through the same arithmetic
+        r = unit_rac(None, tree)
+        if r["bad"]:
+            return dict(jobs=None, experiment="C04 run-time corpus (contracts/c04.py RAC_PROGS)", **{k: v for k, v in r["bad"][0].items()}, reproduced=True)
+        from contracts import c03
+        return c03.replay(o, tree)
     if cfg.get("kind") == "offset":
         return replay_offset(cfg, w, tree)
     if cfg.get("kind") == "rm":
